@@ -467,6 +467,70 @@ def extends_capture_pairing(prog):
     return opened, closed
 
 
+def check_name_resolution(ctx, prog, tag):
+    """I12 (round 10, seed C06-10): extends / include / import / from-import name a template *relative to the template
+    that refers to it*: the host's path-join callback decides what that means, for every name.  (a) the function that
+    holds the callback (found by the field it reads) calls it on every path of its `Some` side - no test of the name
+    stands between the Option test and the call; (b) inside the interpreter (`vm/*`) a template is looked up through
+    the joining wrapper only, and the wrapper hands the join the current template's own name."""
+    n = 0
+    FIELD = "path_join_callback"
+    joiners = []
+    for f in prog.fns.values():
+        if f.crate != "minijinja" or f.kind == "closure":
+            continue
+        for bb, i, st in f.all_stmts():
+            rv = st.get("rv")
+            if rv and rv["k"] == "discr" and any(isinstance(e, dict) and e.get("n") == FIELD for e in rv["place"].get("p", [])):
+                if f not in joiners:
+                    joiners.append((f, bb))
+    for f, dbb in joiners:
+        # the switch on the Option and its Some side
+        sb = None
+        for b in sorted(f.reachable):
+            t = f.term(b)
+            if t["k"] == "switch" and b == dbb:
+                sb = b
+        if sb is None:
+            continue
+        t = f.term(sb)
+        some = [x for v, x in t["arms"] if v == "1"]
+        if not some:
+            continue
+        calls = [c.bb for c in f.calls() if c.indirect or c.name.endswith(("Fn::call", "FnMut::call_mut", "FnOnce::call_once"))]
+        rets = f.returns()
+        n += 1
+        ok = bool(calls) and cfg.paths_must_pass(f, some[0], calls, rets)
+        ctx.ob("C06.I12.every-referenced-name-goes-through-the-join-callback", "%s%s|callback-on-every-path" % (tag, f.path), ok,
+               "with a path-join callback installed, every path through %s calls it: a name that bypasses the callback is "
+               "looked up as written, not relative to the referring template" % f.path.split("::")[-1], f.where(sb))
+    jnames = {f.path for f, _ in joiners}
+    # (b) lookups from the interpreter
+    GET = "minijinja::environment::Environment::get_template"
+    wrappers = set()
+    for c in prog.calls_of(GET):
+        g = c.fn
+        if g.crate != "minijinja":
+            continue
+        in_vm = g.loc.f.startswith("minijinja/src/vm/") or "/vm/" in g.loc.f
+        if not in_vm:
+            continue
+        n += 1
+        joined = False
+        for o in (flow.origins(g, c.args[1], through_calls=lambda k: 0 if k.name.endswith(("::deref", "::as_ref", "::borrow")) else None)
+                  if len(c.args) > 1 and "c" not in c.args[1] else []):
+            if o.kind == "call" and o.call.name in jnames:
+                joined = True
+                par = o.call.args[2] if len(o.call.args) > 2 else None
+                own = par is not None and "c" not in par and any(
+                    q.kind == "call" and q.call.name.endswith(("State::name", "Instructions::name")) for q in flow.origins(g, par))
+                ctx.ob("C06.I12.every-referenced-name-goes-through-the-join-callback", "%s%s|parent-is-the-current-template" % (tag, g.path), own,
+                       "the name is joined against the name of the template that is being evaluated", g.where(o.call.bb))
+        ctx.ob("C06.I12.every-referenced-name-goes-through-the-join-callback", "%s%s|lookup-is-joined" % (tag, g.path), joined,
+               "a template looked up from the interpreter (%s) gets the name the join callback returned" % g.path.split("::")[-1], g.where(c.bb))
+    return n, len(joiners)
+
+
 def run(ctx):
     ctx.explain("C06 (error clauses only): guard/dominance rules on the LoadBlocks handler, load_blocks and "
                 "perform_include: double extends, inheritance cycles and missing templates reach `return Err` on "
@@ -494,6 +558,9 @@ def run(ctx):
         tag = "" if cname == "MAX" else "[%s]" % cname
         ev = prog.fn(EI)
         lb = prog.fn(LB)
+        n12, nj = check_name_resolution(ctx, prog, tag)
+        ctx.floor("C06.I12 join callback holders" + tag, nj, 1)
+        ctx.floor("C06.I12 obligations" + tag, n12, 2)
         # perform_include is read through private helpers a piece of it may have been moved into (`include_not_found(..)`);
         # callees whose names the rules mention stay calls
         from .. import inline as _inl
